@@ -9,6 +9,7 @@ from . import common as K
 
 PUNCT_OK = {"COLON": ":", "COMMA": ",", "EQUAL": "=", "LBRACK": "[", "LPAREN": "(", "RBRACK": "]", "RPAREN": ")"}
 VALUELESS = set(PUNCT_OK)
+LR_LEN = {"quick": 12, "thorough": 13}
 
 
 def p_indices(func):
@@ -538,6 +539,48 @@ def run(ctx, idx):
         ctx.floor("C10.e", "layout forms run through the generated LR table", n_lr, 9)
         if lr_undecided:
             raise AnalysisError(lr_undecided[0])
+        # ... and for every conflict yacc resolved silently: no sentence the grammar derives (all of them, up to a length) is lost
+        # to it.  An LALR(1) parser without conflicts accepts exactly the language; each conflict resolved against a derivation
+        # costs the sentences that needed the other choice.
+        ctx.rule("C10.l", "What the grammar derives the generated parser accepts: every sentence of up to N token names derived from the extracted productions (N = %d quick, %d thorough) is run through the LALR(1) table; a rejected sentence is charged to the silently resolved conflict(s) its run went through." % (LR_LEN["quick"], LR_LEN["thorough"]))
+        at_ = tab.conflict_at()
+        n_tok = LR_LEN.get(ctx.tier, LR_LEN["quick"])
+        sents = None
+        while n_tok >= 8:
+            sents = grammar.sentences(L.productions, L.start, n_tok)
+            if sents is not None:
+                break
+            n_tok -= 1
+        if sents is None:
+            raise AnalysisError("C10.l: the grammar derives too many sentential forms of 8 tokens to enumerate")
+        ctx.floor("C10.l", "sentences of up to %d tokens derived by the grammar" % n_tok, len(sents), 200)
+        blamed, multi, unsure_l = {}, [], []
+        for snt in sorted(sents, key=lambda z: (len(z), z)):
+            seen_c = set()
+            if tab.accepts(snt, seen_c, at_):
+                continue
+            if tab1.accepts(snt):
+                unsure_l.append(snt)
+                continue
+            if not seen_c:
+                raise AnalysisError("C10.l: `%s` is derived by the grammar and refused by the conflict-free part of the generated table - the table construction is wrong" % " ".join(snt))
+            if len(seen_c) == 1:
+                blamed.setdefault(next(iter(seen_c)), snt)
+            else:
+                multi.append((snt, seen_c))
+        for snt, cs in multi:
+            if not (cs & set(blamed)):
+                for c_ in cs:
+                    blamed.setdefault(c_, snt)
+        for c_ in sorted(set(at_.values())):
+            w_ = blamed.get(c_)
+            ctx.ob("C10.l", "%s::grammar::derived-is-accepted(%s)" % (rel, c_), rel, 0, w_ is None,
+                   "the conflict is resolved without losing any of the %d derived sentences of up to %d tokens" % (len(sents), n_tok) if w_ is None else
+                   "the grammar derives `%s`, but the generated parser refuses it: the conflict `%s` is resolved silently (as yacc does: shift, or the rule written first) and the parser is then committed to the other reading" % (" ".join(w_), c_))
+        if not at_:
+            ctx.hold("C10.l", "%s::grammar::derived-is-accepted(no conflicts)" % rel, rel, 0, "the LALR(1) table has no conflict: the generated parser accepts exactly what the grammar derives (%d sentences of up to %d tokens confirmed)" % (len(sents), n_tok))
+        if unsure_l and not blamed:
+            raise AnalysisError("C10.l: the LALR(1) and the canonical LR(1) table disagree on `%s`" % " ".join(unsure_l[0]))
         for lhs, (o_, c_) in (("arguments", ("LPAREN", "RPAREN")), ("list", ("LBRACK", "RBRACK"))):
             okl = grammar.derives(L.productions, lhs, [o_, c_])
             ctx.ob("C10.e", "%s::grammar(%s)::layout-forms" % (rel, lhs), rel, 0, okl, "the empty form is accepted" if okl else "the empty form `%s %s` is no longer accepted" % (o_, c_))
